@@ -8,7 +8,9 @@ import (
 	"bytes"
 	"fmt"
 	"io"
+	"mime"
 	"strings"
+	"unicode/utf8"
 
 	mail "github.com/wneessen/go-mail"
 	"verif/harness/bytex"
@@ -323,6 +325,67 @@ func runCase(r *hx.Run, c hx.Case) {
 				r.Fail(c.ID, "hdr-unfold-mismatch", fmt.Sprintf("unfolded %q want %q", got, want))
 			}
 		}
+	case "hdrc":
+		// values with CR, LF and other control characters (pure ASCII or not): what is stored is an encoded word, the
+		// field is compared with the model on the STORED values, and the section must contain no bare CR/LF and no
+		// field that was not set
+		key := string(hx.UnHex(c.Args[0]))
+		vals := hx.UnHexList(c.Args[1])
+		svals := make([]string, len(vals))
+		for i, v := range vals {
+			svals[i] = string(v)
+		}
+		m := mail.NewMsg()
+		m.SetGenHeader(mail.Header(key), svals...)
+		m.SetBodyString(mail.TypeTextPlain, "x")
+		stored := m.GetGenHeader(mail.Header(key))
+		out, err := render(m)
+		if err != nil {
+			r.Add(c, "ERR", true)
+			return
+		}
+		hdr, _, ok := splitHeaderBody(out)
+		if !ok {
+			r.Fail(c.ID, "no-header-end", "no empty line in output")
+			r.Add(c, "NOSPLIT", true)
+			return
+		}
+		f := field(hdr, key)
+		sb := make([][]byte, len(stored))
+		for i, v := range stored {
+			sb[i] = []byte(v)
+		}
+		r.Add(hx.Case{ID: c.ID, Kind: "hdr", Args: []string{c.Args[0], hx.HexList(sb)}}, hx.Hex(f), true)
+		if cl, d := checkLines(hdr, 78, true); cl != "" {
+			r.Fail(c.ID, "hdrc-"+cl, d)
+		}
+		if len(stored) > 0 {
+			want := key + ": " + strings.Join(stored, ", ")
+			if got := string(unfold(f)); got != want {
+				r.Fail(c.ID, "hdrc-unfold-mismatch", fmt.Sprintf("unfolded %q want %q", got, want))
+			}
+		}
+		for _, l := range bytes.Split(hdr, []byte("\r\n")) {
+			if len(l) == 0 || l[0] == ' ' || l[0] == '\t' {
+				continue
+			}
+			name := string(l)
+			if i := strings.IndexByte(name, ':'); i >= 0 {
+				name = name[:i]
+			}
+			switch name {
+			case key, "Date", "MIME-Version", "Message-ID", "User-Agent", "X-Mailer", "Content-Type", "Content-Transfer-Encoding":
+			default:
+				r.Fail(c.ID, "hdrc-extra-field", fmt.Sprintf("the header section has the line %q, which was never set (values %q)", l, svals))
+			}
+		}
+		for i, raw := range svals {
+			if i < len(stored) && utf8.ValidString(raw) && !strings.Contains(raw, "=?") {
+				if got, derr := new(mime.WordDecoder).DecodeHeader(stored[i]); derr != nil || got != raw {
+					r.Fail(c.ID, "hdrc-value-not-preserved", fmt.Sprintf("stored %q decodes to %q (%v), set was %q", stored[i], got, derr, raw))
+				}
+			}
+		}
 	case "fname":
 		// part headers (Content-Type name=, Content-Disposition filename=) for a file name
 		name := string(hx.UnHex(c.Args[0]))
@@ -566,6 +629,35 @@ func Run(r *hx.Run, replay []hx.Case) {
 			vals[j] = []byte(v)
 		}
 		runCase(r, hx.Case{ID: r.NewID(), Kind: "hdr", Args: []string{hx.Hex([]byte(key)), hx.HexList(vals)}})
+	}
+	// values with control characters: pure ASCII with CR / LF / CRLF / NUL / ESC, and the same next to non-ASCII text
+	{
+		ctl := []string{"x\r\nBcc: eve@example.com", "x\nX-Injected: 1", "x\rX-Injected: 1", "line one\r\n line two", "a\x00b", "esc\x1b[0m", "\r\n", "\n", "\r",
+			"tail\r\n", "\r\nhead", "caf\xc3\xa9\r\nX-Injected: 1", "bell\x07", "del\x7f", "x\r\n\r\nbody text", strings.Repeat("word ", 20) + "\r\nX: y"}
+		for i, v := range ctl {
+			runCase(r, hx.Case{ID: r.NewID(), Kind: "hdrc", Args: []string{hx.Hex([]byte("X-Verif-Ctl")), hx.HexList([][]byte{[]byte(v)})}})
+			runCase(r, hx.Case{ID: r.NewID(), Kind: "hdrc", Args: []string{hx.Hex([]byte("Subject")), hx.HexList([][]byte{[]byte(v)})}})
+			runCase(r, hx.Case{ID: r.NewID(), Kind: "hdrc", Args: []string{hx.Hex([]byte("X-Verif-Two")), hx.HexList([][]byte{[]byte("plain value"), []byte(ctl[(i+3)%len(ctl)]), []byte(v)})}})
+		}
+		nc := 150
+		if thorough {
+			nc = 5000
+		}
+		for i := 0; i < nc && !r.Expired(); i++ {
+			n := 1 + r.Rng.Intn(40)
+			b := make([]byte, n)
+			for k := range b {
+				switch r.Rng.Intn(6) {
+				case 0:
+					b[k] = byte(r.Rng.Intn(32))
+				case 1:
+					b[k] = []byte{'\r', '\n', ' ', ':'}[r.Rng.Intn(4)]
+				default:
+					b[k] = byte(33 + r.Rng.Intn(94))
+				}
+			}
+			runCase(r, hx.Case{ID: r.NewID(), Kind: "hdrc", Args: []string{hx.Hex([]byte("X-Verif-Ctl")), hx.HexList([][]byte{b})}})
+		}
 	}
 	// words separated by TAB instead of SP
 	for i := 0; i < 12; i++ {
